@@ -976,4 +976,106 @@ def sizeKv : Py × Py → Nat
 end
 
 
+/-! ## enum leaves: which face of a member (`.value` or `.name`) travels in the payload -/
+
+/-- how one side of the codec identifies a member: `node.value` / `DType(x)` (by value), `node.name` / `DType[x]` or a
+    name-keyed table (by name), or something the translator does not recognise -/
+inductive EnumBy where
+  | value | name | other
+deriving DecidableEq, Repr
+
+def EnumBy.ofString : String → EnumBy
+  | "value" => .value
+  | "name" => .name
+  | _ => .other
+
+/-- a member is a (name, value) pair of the regenerated table -/
+def enumFace : EnumBy → String × String → Option String
+  | .value, e => some e.2
+  | .name, e => some e.1
+  | .other, _ => none
+
+def encodeEnum (b : EnumBy) (e : String × String) : Option String := enumFace b e
+
+def decodeEnum (T : List (String × String)) (b : EnumBy) (s : String) : Option (String × String) :=
+  T.find? fun e => enumFace b e == some s
+
+/-! ## the equality users observe: `Expression.__eq__` is `type(a) is type(b) and hash(a) == hash(b)`
+
+  `__hash__` folds, per node, `hash(node.key)` and — for `k in sorted(node.args)` — the contributions of each arg:
+  nothing for `None` / `False`, `(k, value)` otherwise with strings lower-cased, `(k, x)` or a bare `(k)` per list element;
+  classes with `_hash_raw_args` (Literal, Identifier) fold `(k, v)` for every truthy `v` without lower-casing.  `_type`,
+  comments and meta are not folded.  `EqK` is that fold as a value (the hash function itself is taken to be injective on
+  it — assumption A-hash); `True` folds as `1` (`hash(True) == hash(1)` and `True == 1`). -/
+
+inductive EqK where
+  | node (key : String) (items : List (String × Option EqK))
+  | str (s : String)
+  | int (i : Int)
+  | dtype (s : String)
+  | unhashable
+
+structure HashRules where
+  rawArgs : String → Bool          -- `_hash_raw_args`
+  keyOf : String → String          -- `cls.key`
+  lower : String → String          -- `str.lower`
+
+/-- a raw value inside a class without `_hash_raw_args`: `None` / `False` contribute nothing -/
+def nfRaw (R : HashRules) : Raw → Option EqK
+  | .null => none
+  | .bool false => none
+  | .bool true => some (.int 1)
+  | .int i => some (.int i)
+  | .str s => some (.str (R.lower s))
+  | .arr _ => some .unhashable
+
+/-- … and inside a `_hash_raw_args` class: every falsy value contributes nothing, nothing is lower-cased -/
+def nfRawTruthy : Raw → Option EqK
+  | .null => none
+  | .bool b => if b then some (.int 1) else none
+  | .int i => if i = 0 then none else some (.int i)
+  | .str s => if s = "" then none else some (.str s)
+  | .arr l => if l.isEmpty then none else some .unhashable
+
+def insertItem (x : String × Option EqK) : List (String × Option EqK) → List (String × Option EqK)
+  | [] => [x]
+  | y :: ys => if x.1 < y.1 then x :: y :: ys else y :: insertItem x ys
+
+/-- `for k in sorted(node.args)`: stable by key -/
+def sortItems : List (String × Option EqK) → List (String × Option EqK)
+  | [] => []
+  | x :: xs => insertItem x (sortItems xs)
+
+/-- the contribution of a single-valued arg, given the fold of its value -/
+def itemOne (R : HashRules) (raw : Bool) (k : String) (v : Val) (n : EqK) : List (String × Option EqK) :=
+  match v with
+  | .raw r => match (if raw then nfRawTruthy r else nfRaw R r) with
+    | some x => [(k, some x)]
+    | none => []
+  | _ => [(k, some n)]
+
+/-- the contribution of one list element: `(k, x)` or a bare `(k)` for `None` / `False` -/
+def itemElem (R : HashRules) (k : String) (v : Val) (n : EqK) : String × Option EqK :=
+  match v with
+  | .raw r => (k, nfRaw R r)
+  | _ => (k, some n)
+
+mutual
+def Val.nf (R : HashRules) : Val → EqK
+  | .node cls _ _ _ args => .node (R.keyOf cls) (sortItems (nfArgs R (R.rawArgs cls) args))
+  | .dtype s => .dtype s
+  | .raw r => match nfRaw R r with
+    | some k => k
+    | none => .unhashable
+def nfArgs (R : HashRules) (raw : Bool) : List Arg → List (String × Option EqK)
+  | [] => []
+  | a :: as => a.nfItems R raw ++ nfArgs R raw as
+def Arg.nfItems (R : HashRules) (raw : Bool) : Arg → List (String × Option EqK)
+  | .one k v => itemOne R raw k v (v.nf R)
+  | .many k vs => if raw then (if vs.isEmpty then [] else [(k, some .unhashable)]) else nfVals R k vs
+def nfVals (R : HashRules) (k : String) : List Val → List (String × Option EqK)
+  | [] => []
+  | v :: vs => itemElem R k v (v.nf R) :: nfVals R k vs
+end
+
 end SqlglotModel.Serde
